@@ -167,6 +167,31 @@ class NpShim:
     def zeros(self, shape, dtype=float, **kw):
         return np.zeros(shape, dtype=dtype)
 
+    def _like(self, x, fill, dtype=None):
+        a = np.asarray(x, dtype=object)
+        out = SymArr(np.full(a.shape, fill, dtype=object))
+        try:
+            out.ldtype = np.dtype(dtype) if dtype is not None else (getattr(x, "ldtype", None) or _infer_ldtype(x))
+        except TypeError:
+            out.ldtype = None
+        return out
+
+    def zeros_like(self, x, dtype=None, **kw):
+        # numpy semantics: the result has the dtype of its argument (integer rewards -> integer storage)
+        if _has_sym(x) or isinstance(x, SymArr):
+            return self._like(x, 0, dtype)
+        return np.zeros_like(x, dtype=dtype, **kw)
+
+    def ones_like(self, x, dtype=None, **kw):
+        if _has_sym(x) or isinstance(x, SymArr):
+            return self._like(x, 1, dtype)
+        return np.ones_like(x, dtype=dtype, **kw)
+
+    def empty_like(self, x, dtype=None, **kw):
+        if _has_sym(x) or isinstance(x, SymArr):
+            return self._like(x, 0, dtype)
+        return np.empty_like(x, dtype=dtype, **kw)
+
     def asarray(self, x, dtype=None, **kw):
         if isinstance(x, SymArr):
             return x
